@@ -60,8 +60,8 @@ def run_cfg(draw):
 
 
 @st.composite
-def cases(draw, max_leaves=8, max_genes=24, hunt_small=False):
-    n_leaves = draw(st.sampled_from([n for n in (2, 3, 3, 4, 4, 5, 5, 6, 6, 7, 8) if n <= max_leaves]))
+def cases(draw, max_leaves=8, max_genes=24):
+    n_leaves = draw(st.sampled_from([n for n in (2, 3, 3, 4, 4, 5, 5, 6, 6, 7, 8, 9, 10) if n <= max_leaves]))
     names = draw(leaf_names(n_leaves))
     n_genes = draw(st.integers(4, max_genes))
     size_mode = draw(st.sampled_from(['large', 'large', 'mixed', 'mixed', 'small']))
@@ -127,7 +127,7 @@ def cases(draw, max_leaves=8, max_genes=24, hunt_small=False):
         'thr': draw(thresholds()),
         'gene_list': gl,
         'n_valid': draw(st.integers(1, n_genes)),
-        'exact': draw(st.integers(0, 2)) == 0,
+        'exact': draw(st.sampled_from([False, False, True])),
         'runs': [draw(run_cfg()), draw(run_cfg())],
         'routes': routes,
         'rename': rename,
